@@ -230,6 +230,17 @@ func (s *Session) decls(vc *FuncVC) string {
 	return fullDecls(s.S, s.Prelude, vc.IfaceFns)
 }
 
+// preludeConsistency: the declarations and axioms alone must not be refutable
+// (a contradictory prelude would make every obligation pass vacuously).
+func (s *Session) preludeConsistency(dir string) string {
+	q := "(set-logic ALL)\n" + fullDecls(s.S, s.Prelude, nil) + "\n(check-sat)\n"
+	r := solveOne(dir, "prelude-consistency", q, 8000, false)
+	if r.Status == "unsat" {
+		return "the prelude axioms are contradictory (" + r.Solver + " refutes them)"
+	}
+	return ""
+}
+
 func propsOf(ct *FuncContract) map[string]bool {
 	out := map[string]bool{}
 	for _, t := range ct.Tags {
@@ -461,6 +472,10 @@ func cmdCheck(args []string) int {
 	}
 	dir, _ := os.MkdirTemp("", "govc-q")
 	defer os.RemoveAll(dir)
+	if msg := s.preludeConsistency(dir); msg != "" {
+		fmt.Printf("ENGINE-ERROR: %s\n", msg)
+		return 2
+	}
 	dischargeAll(dir, s.decls, vcs, filter, timeout, 14)
 	return report(s, *prop, *tier, seed, vcs, filter, t0, dir, timeout)
 }
